@@ -522,6 +522,21 @@ def ld12(F, R):
         if e.kind == "call" and e.name in PANICKY and not e.exp:
             R.bad("LD1", "LD1/Sodg::load/%s" % e.name, e.where(),
                   "load() uses `%s`: a truncated or unreadable image panics or is silently replaced instead of giving Err" % e.name)
+    # nothing in load() may panic on a short input: slicing / splitting the bytes read at a fixed position does
+    for e in raw:
+        if e.kind == "call" and not e.exp and e.name in ("split_at", "split_at_mut", "split_first", "split_last", "split_off", "drain", "copy_from_slice",
+                                                         "swap_remove", "remove") and e.args and \
+                (e.path.startswith("core::slice") or "[T]>" in e.path or "Vec" in e.path):
+            if e.name in ("split_first", "split_last"):
+                continue        # these return Option
+            R.bad("LD1", "LD1/Sodg::load/may-panic-on-short-input/%s" % e.name, e.where(),
+                  "load() applies `%s` to the bytes it read: an image shorter than the position panics instead of giving Err" % e.name)
+    for site, kind, st in load.sites():
+        if kind == "stmt" and st["k"] == "assign":
+            for pl in [st["lhs"]] + [st["rv"].get("place")] if isinstance(st["rv"].get("place"), dict) else [st["lhs"]]:
+                if pl and any(pe.get("k") in ("index", "constindex", "subslice") for pe in pl.get("proj", [])) and not st.get("exp"):
+                    R.bad("LD1", "LD1/Sodg::load/may-panic-on-short-input/index", load.where(site),
+                          "load() indexes into a buffer at a fixed position: a short image panics instead of giving Err")
     oks, others = ok_values(load)
     for site, a, kind in others:
         if kind == "err":
